@@ -323,14 +323,20 @@ class Frame:
                     ids = set(ctx.__dict__.get('_pc_ids', ()))
                     ctx.solver.push()
                     ctx.__dict__.setdefault('fam_guards', []).append(cond)
+                    ctx.__dict__.setdefault('arm_marks', []).append((cond, mark))
                     ctx.assume_raw(cond)
                     try:
                         self.exec_block(arm)
                     finally:
                         ctx.fam_guards.pop()
+                        ctx.arm_marks.pop()
+                        learned = list(ctx.pc[mark + 1:])
                         ctx.solver.pop()
                         del ctx.pc[mark:]
                         ctx._pc_ids = ids
+                        # what was learned inside the arm holds under the arm's condition (definitions of division witnesses etc.)
+                        for fact in learned:
+                            ctx.assume_raw(z3.Implies(cond, fact))
                         self.env.clear(); self.env.update(saved)
                 return
         c = self.truth(tv)
